@@ -72,13 +72,13 @@ def gen_case(rng, cid, tier):
 
 EXPLORE = [
     # (scenario lines, quick runs, thorough runs): systematic depth-first enumeration of all schedules
-    (["pool 1", "job 0", "client w", "main e0"], 1500, 25000),
-    (["pool 1", "job 0", "client w", "client w", "main e0"], 1500, 25000),          # the D6 shape
-    (["pool 1", "client u", "client u", "main t"], 1500, 25000),                    # the D6b shape
-    (["pool 1", "job 0", "client u", "client w", "main e0 t"], 1000, 25000),
-    (["pool 2", "job 0", "job 1 e0", "main e1 w"], 1000, 25000),
-    (["pool 1", "job 0", "job 1 e0 t", "client w", "main e1 u"], 0, 25000),
-    (["pool 2", "job 0", "client e0 w", "main e0 w"], 0, 25000),
+    (["pool 1", "job 0", "client w", "main e0"], 1500, 15000),
+    (["pool 1", "job 0", "client w", "client w", "main e0"], 1500, 15000),          # the D6 shape
+    (["pool 1", "client u", "client u", "main t"], 1500, 15000),                    # the D6b shape
+    (["pool 1", "job 0", "client u", "client w", "main e0 t"], 1000, 15000),
+    (["pool 2", "job 0", "job 1 e0", "main e1 w"], 1000, 15000),
+    (["pool 1", "job 0", "job 1 e0 t", "client w", "main e1 u"], 0, 15000),
+    (["pool 2", "job 0", "client e0 w", "main e0 w"], 0, 15000),
 ]
 
 
